@@ -384,3 +384,159 @@ def edit_history(seed, steps, start="random", big=False, dump_every=8, grow=Fals
     g.emit("dump h0")
     g.emit("free h0")
     return g.text()
+
+
+# ---------------------------------------------------------------------------------------------
+# C07: invalid-argument probes in every lifecycle state
+# ---------------------------------------------------------------------------------------------
+def _bad_indices(count, other):
+    return [-1, count, count + 1, count + other, INT_MAX]
+
+
+def invalid_probes(seed, state, nr=3, nc=3):
+    """one scenario: bring a problem into lifecycle `state`, then fire every invalid-argument probe,
+    each bracketed by observations (dump + sol)."""
+    g = Gen(seed)
+    r = g.r
+    h = "h0"
+    g.emit("scenario inv_%s_%d" % (state, seed))
+    g.emit("handler on")
+    if state == "empty":
+        g.create()
+        nr = nc = 0
+    else:
+        g.load(nr, nc, dens=0.8)
+        # make sure one row is a range row and names are known
+        g.emit("add_ranged_row h0 %s %s R %s rr%d" % (g.entstr(g.ent(g.n)), qstr(g.val()), qstr(abs(g.val())), seed))
+        g._row_added("rr%d" % seed, "R")
+    if state in ("solved_exact", "edited"):
+        g.emit("exact h0 primal - 1")
+    if state == "solved_simplex":
+        g.emit("opt_primal h0")
+    if state == "solved_dual":
+        g.emit("opt_dual h0")
+    if state == "edited":
+        g.emit("change_objcoef h0 0 %s" % qstr(g.val()))
+    m, n = g.m, g.n
+
+    def obs():
+        g.emit("dump h0")
+        g.emit("sol h0")
+
+    def probe(line):
+        g.emit(line)
+        obs()
+
+    obs()
+    q = lambda: qstr(g.val())
+    for i in _bad_indices(m, n):
+        probe("delete_row h0 %d" % i)
+        probe("change_rhscoef h0 %d %s" % (i, q()))
+        probe("change_range h0 %d 1" % i)
+        probe("change_sense h0 %d G" % i)
+        probe("get_coef h0 %d 0" % i)
+        probe("change_coef h0 %d 0 %s" % (i, q()))
+        probe("get_rows_list h0 1 %d" % i)
+        probe("get_ranged_rows_list h0 1 %d" % i)
+        probe("add_col h0 1 %d 1 %s 0 inf -" % (i, q()))
+        probe("add_cols h0 2 0 1 0 inf -  1 %d 1 2 0 inf -" % i)
+        probe("binv_row h0 %d" % i)
+        probe("tableau_row h0 %d" % i)
+        if m >= 2:
+            for pos in range(3):
+                lst = [0, 1]
+                lst.insert(pos, i)
+                probe("delete_rows h0 3 %s" % " ".join(map(str, lst)))
+                probe("change_senses h0 3 %s" % " ".join("%d %s" % (x, r.choice("LGE")) for x in lst))
+                probe("get_rows_list h0 3 %s" % " ".join(map(str, lst)))
+    for j in _bad_indices(n, m):
+        probe("delete_col h0 %d" % j)
+        probe("change_objcoef h0 %d %s" % (j, q()))
+        probe("change_bound h0 %d L %s" % (j, q()))
+        probe("change_bound h0 %d U %s" % (j, q()))
+        probe("get_bound h0 %d L" % j)
+        probe("get_bound h0 %d U" % j)
+        probe("get_coef h0 0 %d" % j)
+        probe("change_coef h0 0 %d %s" % (j, q()))
+        probe("get_obj_list h0 1 %d" % j)
+        probe("get_bounds_list h0 1 %d" % j)
+        probe("get_columns_list h0 1 %d" % j)
+        probe("add_row h0 1 %d 1 %s L -" % (j, q()))
+        probe("add_ranged_row h0 1 %d 1 %s R 1 -" % (j, q()))
+        probe("add_rows h0 2 0 1 L -  1 %d 1 2 G -" % j)
+        probe("add_ranged_rows h0 2 0 1 L 0 -  1 %d 1 2 R 1 -" % j)
+        if n >= 2:
+            for pos in range(3):
+                lst = [0, 1]
+                lst.insert(pos, j)
+                probe("delete_cols h0 3 %s" % " ".join(map(str, lst)))
+                probe("change_bounds h0 3 %s" % " ".join("%d %s %s" % (x, r.choice("LUB"), q()) for x in lst))
+                probe("get_obj_list h0 3 %s" % " ".join(map(str, lst)))
+                probe("get_bounds_list h0 3 %s" % " ".join(map(str, lst)))
+                probe("get_columns_list h0 3 %s" % " ".join(map(str, lst)))
+    # names
+    probe("delete_named_row h0 nosuchrow")
+    probe("delete_named_column h0 nosuchcol")
+    probe("get_row_index h0 nosuchrow")
+    probe("get_column_index h0 nosuchcol")
+    if m >= 1:
+        probe("delete_named_rows h0 2 %s nosuchrow" % g.rn[0])
+        probe("delete_named_rows h0 2 nosuchrow %s" % g.rn[0])
+        probe("new_row h0 1 L %s" % g.rn[0])
+        probe("add_row h0 0 1 L %s" % g.rn[-1])
+        probe("add_rows h0 2 0 1 L fresh_a  0 2 G %s" % g.rn[0])
+        probe("add_rows h0 2 0 1 L dupnm  0 2 G dupnm")
+        probe("change_sense h0 0 X")
+        probe("change_sense h0 0 #0")
+        probe("change_senses h0 2 0 L %d Q" % (m - 1))
+        nonr = [i for i in range(m) if g.sense[i] != "R"]
+        if nonr:
+            probe("change_range h0 %d 1" % nonr[0])
+    if n >= 1:
+        probe("delete_named_columns h0 2 %s nosuchcol" % g.cn[0])
+        probe("new_col h0 1 0 inf %s" % g.cn[0])
+        probe("add_col h0 0 1 0 inf %s" % g.cn[-1])
+        probe("add_cols h0 2 0 1 0 inf fresh_c  0 2 0 inf %s" % g.cn[0])
+        probe("add_cols h0 2 0 1 0 inf dupc  0 2 0 inf dupc")
+        probe("change_bound h0 0 X 1")
+        probe("change_bound h0 0 #0 1")
+        probe("change_bounds h0 2 0 L 1 %d Z 2" % (n - 1))
+        probe("get_bound h0 0 X")
+    probe("new_row h0 1 X -")
+    probe("new_row h0 1 #0 -")
+    probe("add_row h0 0 1 Q -")
+    probe("add_ranged_row h0 0 1 Z 1 -")
+    probe("add_rows h0 2 0 1 L -  0 2 Y -")
+    probe("change_objsense h0 0")
+    probe("change_objsense h0 2")
+    for which, val in [(0, 0), (0, 5), (0, 7), (2, 3), (2, 10), (4, -1), (4, 4), (5, 0), (5, -5), (7, 2), (7, -1), (1, 1), (3, 1), (6, 1), (99, 1), (-1, 1)]:
+        probe("set_param h0 %d %d" % (which, val))
+    for which in (1, 3, 99, -1):
+        probe("get_param h0 %d" % which)
+    # bases
+    cs_ok = "1" * min(m, n) + "0" * max(0, n - m)
+    rs_ok = "0" * min(m, n) + "1" * max(0, m - n)
+    if m + n > 0:
+        probe("load_basis_array h0 %s %s" % (("1" * n) or "-", ("1" * m) or "-"))          # too many basics
+        probe("load_basis_array h0 %s %s" % (("0" * n) or "-", ("0" * m) or "-"))          # no basics
+        if n:
+            probe("load_basis_array h0 %s %s" % ("7" + cs_ok[1:], rs_ok or "-"))            # illegal status char
+        g.emit("mkbasis b1 %s %s" % (cs_ok + "0", rs_ok or "-"))                            # wrong size
+        probe("load_basis h0 b1")
+        g.emit("mkbasis b2 %s %s" % (("1" * n) or "-", ("1" * m) or "-"))                   # wrong count
+        probe("load_basis h0 b2")
+        g.emit("mkbasis b3 %s %s" % (("0" * n) or "-", ("0" * m) or "-"))
+        probe("load_basis h0 b3")
+        if m:
+            g.emit("mkbasis b4 %s %s" % (cs_ok or "-", "5" + rs_ok[1:]))
+            probe("load_basis h0 b4")
+        probe("write_basis h0 b1 /dev/null")
+        probe("write_basis h0 b2 /dev/null")
+        probe("basis_optimalstatus h0 b1") if False else None
+    probe("read_and_load_basis h0 /nonexistent/dir/x.bas")
+    probe("read_basis h0 b5 /nonexistent/dir/x.bas")
+    g.emit("free h0")
+    return g.text()
+
+
+LIFECYCLE = ["empty", "loaded", "solved_exact", "solved_simplex", "solved_dual", "edited"]
